@@ -7,6 +7,7 @@ import Mathlib.Tactic.Linarith
 import Mathlib.Tactic.Ring
 import Mathlib.Tactic.FieldSimp
 import Mathlib.Tactic.SplitIfs
+import RQ.Model.World
 
 namespace RQ.Props.C03
 open RQ.Q
@@ -262,5 +263,30 @@ there is no unit net value (NaN in the code) — every later flow is converted w
 example : (({ accounts := [⟨5000, 0, 0, [], 0, 0, 0, []⟩], units := 5000, staticNav := 1 } : Pf).depositWithdraw 0 (-5000) none).map
     (fun p => (p.units, p.nav)) = some (0, none) := by
   decide +kernel
+
+
+/-! ### inside the composed world (`RQ/Model/World.lean`) -/
+
+/-- a deposit / withdrawal in the composed world does to the portfolio exactly what `Pf.depositWithdraw` does (so `deposit_keeps_nav`,
+`deposit_refused_at_zero_nav` speak about every flow of every run); a refused flow leaves the whole world as it is -/
+theorem world_deposit_is_portfolio_flow (w : World) (k : Nat) (amt : R) (recv : Option Nat) :
+    (w.deposit k amt recv).1.pf = (match w.pf.depositWithdraw k amt recv with | some p' => p' | none => w.pf) ∧
+    (w.pf.depositWithdraw k amt recv = none → (w.deposit k amt recv).1 = w) := by
+  unfold World.deposit Pf.depositWithdraw
+  cases hn : w.pf.nav with
+  | none => simp
+  | some n =>
+    cases ha : w.pf.accounts[k]? with
+    | none => simp
+    | some a =>
+      simp only
+      by_cases h0 : (n == 0) = true
+      · simp [h0]
+      · simp only [h0]
+        cases hd : a.depositWithdraw amt recv with
+        | none => simp
+        | some a' =>
+          simp only [World.apply, ha, Acct.stepOp, hd]
+          simp
 
 end RQ.Props.C03
